@@ -433,7 +433,10 @@ class MeasurementConverter:
         pass
     return trial.Measurement(
         metrics=metrics,
-        elapsed_secs=proto.elapsed_duration.seconds,
+        elapsed_secs=(
+            proto.elapsed_duration.seconds
+            + 1e-9 * proto.elapsed_duration.nanos
+        ),
         steps=proto.step_count,
     )
 
@@ -446,10 +449,11 @@ class MeasurementConverter:
 
     proto.step_count = measurement.steps
     int_seconds = int(measurement.elapsed_secs)
-    proto.elapsed_duration.seconds = int_seconds
-    proto.elapsed_duration.nanos = int(
-        1e9 * (measurement.elapsed_secs - int_seconds)
-    )
+    # Round (not truncate) so that a value read back by from_proto converts to
+    # the same message again; carry if the fraction rounds up to one second.
+    nanos = round(1e9 * (measurement.elapsed_secs - int_seconds))
+    proto.elapsed_duration.seconds = int_seconds + nanos // 10**9
+    proto.elapsed_duration.nanos = nanos % 10**9
     return proto
 
 
